@@ -38,6 +38,14 @@ func readValue(origstr string, str string, separator byte) (string, string, erro
 }
 
 func keyValParse(str string, separator byte) (map[string]string, error) {
+	_, ret, err := keyValParseOrdered(str, separator)
+	return ret, err
+}
+
+// keyValParseOrdered is like keyValParse but also returns the keys in order of first appearance,
+// so that headers can be decoded deterministically (map iteration order is random).
+func keyValParseOrdered(str string, separator byte) ([]string, map[string]string, error) {
+	var keys []string
 	ret := make(map[string]string)
 	origstr := str
 
@@ -45,12 +53,16 @@ func keyValParse(str string, separator byte) (map[string]string, error) {
 		var k string
 		k, str = readKey(str, separator)
 
+		if _, ok := ret[k]; !ok {
+			keys = append(keys, k)
+		}
+
 		if len(str) > 0 && str[0] == '=' {
 			var v string
 			var err error
 			v, str, err = readValue(origstr, str[1:], separator)
 			if err != nil {
-				return nil, err
+				return nil, nil, err
 			}
 
 			ret[k] = v
@@ -69,5 +81,5 @@ func keyValParse(str string, separator byte) (map[string]string, error) {
 		}
 	}
 
-	return ret, nil
+	return keys, ret, nil
 }
